@@ -40,7 +40,7 @@ import (
 func main() { vlib.Run("C05", run) }
 
 func run(c *vlib.Ctx) {
-	c.Rule("scripts of 1-5 rounds x 1-3 concurrent GetBlock/GetBlocks calls (plain service, Session, context-embedded session; exchange with/without session support) over a pool of 6-12 payloads x {v0, v1-dag-pb, v1-raw} alias CIDs + md5 / truncated-sha256 invalid CIDs, request lists of 0-9 CIDs with duplicates, part of the pool already local (possibly under an alias); scripted exchange behaviour per multihash: deliver / omit / duplicate / reorder / early close (+ unrequested, alias-CID, wrong-bytes in the hostile strata), store writes and deliveries delayed by PRNG-chosen amounts; distinct = FNV of config + script; stratum store-fault: honest exchange, the harness's local store fails the next 1-3 writes of PRNG-chosen multihashes before applying anything and the exchange rejects some NotifyNewBlocks calls; non-trivial = (the exchange actually executed a non-plain behaviour (omit, duplicate, early close, unrequested, alias, wrong bytes) on >= 1 block OR a store write failure was actually injected) AND some requested block was local")
+	c.Rule("scripts of 1-5 rounds x 1-3 concurrent GetBlock/GetBlocks calls (plain service, Session, context-embedded session; exchange with/without session support) over a pool of 6-12 payloads x {v0, v1-dag-pb, v1-raw} alias CIDs + md5 / truncated-sha256 invalid CIDs, request lists of 0-9 CIDs with duplicates, part of the pool already local (possibly under an alias); scripted exchange behaviour per multihash: deliver / omit / duplicate / reorder / early close (+ unrequested, alias-CID, wrong-bytes in the hostile strata), store writes and deliveries delayed by PRNG-chosen amounts; distinct = FNV of config + script; stratum store-fault: honest exchange, the harness's local store fails the next 1-3 writes of PRNG-chosen multihashes before applying anything, fails the next 1-2 reads (Get/GetSize, non-not-found error) of PRNG-chosen multihashes while they ARE stored, and the exchange rejects some NotifyNewBlocks calls; non-trivial = (the exchange actually executed a non-plain behaviour (omit, duplicate, early close, unrequested, alias, wrong bytes) on >= 1 block OR a store write/read failure was actually injected) AND some requested block was local")
 	c.Cases("honest", c.N(1400, 28000), func(k *vlib.Case) { script(k, "honest") })
 	c.Cases("honest-conc", c.N(600, 12000), func(k *vlib.Case) { script(k, "honest-conc") })
 	c.Cases("hostile-unrequested", c.N(500, 10000), func(k *vlib.Case) { script(k, "unrequested") })
@@ -119,6 +119,56 @@ type slowStore struct {
 	fmu      sync.Mutex
 	failLeft map[string]int
 	failed   int64
+
+	// read faults: the next readFailLeft[mh] reads of that multihash fail with
+	// a non-not-found error, but only while the block IS stored.
+	readFailLeft map[string]int
+	readFaulted  map[string]bool // fired since the last resetRound
+	readFailed   int64
+}
+
+var errInjectedRead = errors.New("harness: injected local store read failure (block is stored)")
+
+func (s *slowStore) readFault(ctx context.Context, c cid.Cid) bool {
+	m := string(c.Hash())
+	s.fmu.Lock()
+	defer s.fmu.Unlock()
+	if s.readFailLeft[m] == 0 {
+		return false
+	}
+	if has, _ := s.Blockstore.Has(ctx, c); !has {
+		return false
+	}
+	s.readFailLeft[m]--
+	s.readFaulted[m] = true
+	s.readFailed++
+	return true
+}
+
+func (s *slowStore) Get(ctx context.Context, c cid.Cid) (blocks.Block, error) {
+	if s.readFault(ctx, c) {
+		return nil, errInjectedRead
+	}
+	return s.Blockstore.Get(ctx, c)
+}
+
+func (s *slowStore) GetSize(ctx context.Context, c cid.Cid) (int, error) {
+	if s.readFault(ctx, c) {
+		return -1, errInjectedRead
+	}
+	return s.Blockstore.GetSize(ctx, c)
+}
+
+func (s *slowStore) resetRound() {
+	s.fmu.Lock()
+	s.readFaulted = map[string]bool{}
+	s.fmu.Unlock()
+}
+
+func (s *slowStore) faulted(m string) bool {
+	s.fmu.Lock()
+	defer s.fmu.Unlock()
+	return s.readFaulted[m]
 }
 
 var errInjected = errors.New("harness: injected local store write failure (nothing written)")
@@ -421,7 +471,7 @@ func script(k *vlib.Case, profile string) {
 
 	plain := bstore.NewBlockstore(dssync.MutexWrap(ds.NewMapDatastore()))
 	w.plain = plain
-	w.local = &slowStore{Blockstore: plain, delay: map[string]int{}, failLeft: map[string]int{}}
+	w.local = &slowStore{Blockstore: plain, delay: map[string]int{}, failLeft: map[string]int{}, readFailLeft: map[string]int{}, readFaulted: map[string]bool{}}
 	w.notifyFail = map[string]int{}
 	for i := 0; i < np; i++ {
 		switch r.Intn(3) {
@@ -454,6 +504,11 @@ func script(k *vlib.Case, profile string) {
 				w.notifyFail[w.pool[i].mhs] = 1
 				fd = append(fd, fmt.Sprintf("%d:notify-fails-x1", i))
 			}
+			if r.Chance(1, 3) {
+				n := r.Range(1, 2)
+				w.local.readFailLeft[w.pool[i].mhs] = n
+				fd = append(fd, fmt.Sprintf("%d:get-fails-x%d-while-stored", i, n))
+			}
 		}
 		k.Logf("faults: [%s]", strings.Join(fd, " "))
 	}
@@ -474,6 +529,7 @@ func script(k *vlib.Case, profile string) {
 		w.mu.Lock()
 		w.round = rd
 		w.mu.Unlock()
+		w.local.resetRound()
 		// local set at the quiescent point before the round
 		localAt := map[string]bool{}
 		for i := 0; i < np; i++ {
@@ -547,7 +603,11 @@ func script(k *vlib.Case, profile string) {
 		for _, rq := range reqs {
 			for _, c := range rq.cids {
 				if localAt[string(c.Hash())] {
-					k.Fail("local-fetched-from-exchange/"+strings.TrimPrefix(rq.kind, "session."), "a block already stored locally is never requested from the exchange",
+					class := "local-fetched-from-exchange/" + strings.TrimPrefix(rq.kind, "session.")
+					if w.local.faulted(string(c.Hash())) {
+						class += "/read-error" // the local read of this block failed with a non-not-found error in this round
+					}
+					k.Fail(class, "a block already stored locally is never requested from the exchange",
 						"no exchange request for pool entry "+w.name(c), fmt.Sprintf("%s(%s) in round %d", rq.kind, c, rd))
 				}
 				if verifcid.ValidateCid(verifcid.DefaultAllowlist, c) != nil {
@@ -569,6 +629,10 @@ func script(k *vlib.Case, profile string) {
 	injected := w.local.failed
 	w.local.fmu.Unlock()
 	k.C.Count("injected_store_write_failures", injected)
+	w.local.fmu.Lock()
+	injected += w.local.readFailed
+	k.C.Count("injected_store_read_failures", w.local.readFailed)
+	w.local.fmu.Unlock()
 	if (mis > 0 || injected > 0) && sawLocalRequest {
 		k.Nontrivial()
 	}
@@ -646,6 +710,9 @@ func (w *world) runCall(ctx context.Context, svc bserv.BlockService, ses *bserv.
 		case err == nil:
 			k.C.Count("blocks_checked", 1)
 			w.checkBlock(ctx, "getblock", blk, requested)
+		case valid && localAt[string(c.Hash())] && errors.Is(err, errInjectedRead):
+			// the injected read error may be reported to the caller
+			k.C.Count("read_errors_reported_to_caller", 1)
 		case valid && localAt[string(c.Hash())]:
 			k.Fail("getblock/local-error", "a locally stored block is returned", "block", err.Error())
 		case valid && complete:
@@ -671,6 +738,9 @@ func (w *world) runCall(ctx context.Context, svc bserv.BlockService, ses *bserv.
 	for _, c := range cl.cids {
 		if verifcid.ValidateCid(verifcid.DefaultAllowlist, c) != nil {
 			continue
+		}
+		if got[c.KeyString()] == 0 && w.local.faulted(string(c.Hash())) {
+			continue // its local read failed in this round: it may be left out
 		}
 		if got[c.KeyString()] == 0 && (complete || localAt[string(c.Hash())]) {
 			class := "getblocks/missing-honest"
